@@ -11,6 +11,7 @@
   have a valid answer (flag true).
 -/
 import CrCube.Lemmas.NumArrayBases
+import CrCube.Lemmas.ValidCountsSummary
 import CrCube.Props.C01
 import CrCube.Props.C02
 
@@ -130,6 +131,75 @@ theorem numeric_valid_counts_respondents_1d (V : Var) (hV : V.CM) (s : Survey) (
   simp only [validCountsScalar, List.cons_append, List.nil_append]
   exact this
 
+/-! ### `Cube.valid_counts_summary_range` (= `CubeSet.valid_counts_summary_range`)
+
+  `a.uvalid` is the unweighted valid-count array: instantiate `s := unweight s` to count respondents
+  (`valid_counts_unweighted_count_respondents`). -/
+
+/-- None without a `valid_count_unweighted` measure (absent, empty, or not reshapeable) -/
+theorem valid_counts_summary_range_none (d : NDesign) (a : RawArrays) (h : a.uvalid = none) :
+    d.validCountsSummaryRange a = none := by
+  simp [NDesign.validCountsSummaryRange, h]
+
+/-- numeric array × categorical variable: [min, max] over the items of the number of respondents
+    that have a value on the item and a VALID category on the grouping variable -/
+theorem valid_counts_summary_range_respondents (C : Var) (hC : C.kind = .cat) (hne : 0 < C.ext)
+    (n : Nat) (s : Survey) (a : RawArrays) (ha : a.uvalid = some (validCountsOf [C] n s)) :
+    (NDesign.mk [C] (some n)).validCountsSummaryRange a = summarySpecRange [C] (some n) s := by
+  have hcells : sumAxes ((NDesign.mk [C] (some n)).view (validCountsOf [C] n s))
+      (NDesign.mk [C] (some n)).summaryMask = (summarySpecCells [C] (some n) s).map Val.fin := by
+    rw [summary_cells_numarr_cat C hC, spec_cells_numarr_cat C hC, List.map_map]
+    apply List.map_congr_left
+    intro i hi
+    have hi' := List.mem_range.mp hi
+    rw [range_getD_lt n i hi']
+    exact validCounts2d_rowBase C (Or.inl hC) n s i 0 hi' hne
+  simp only [NDesign.validCountsSummaryRange, ha, summarySpecRange, hcells]
+
+/-- numeric array alone: [min, max] over the items of the respondents with a value on the item -/
+theorem valid_counts_summary_range_respondents_strand (n : Nat) (s : Survey) (a : RawArrays)
+    (ha : a.uvalid = some (validCountsOf [] n s)) :
+    (NDesign.mk [] (some n)).validCountsSummaryRange a = summarySpecRange [] (some n) s := by
+  have hcells : sumAxes ((NDesign.mk [] (some n)).view (validCountsOf [] n s))
+      (NDesign.mk [] (some n)).summaryMask = (summarySpecCells [] (some n) s).map Val.fin := by
+    rw [summary_cells_numarr_alone, spec_cells_numarr_alone, List.map_map]
+    apply List.map_congr_left
+    intro i hi
+    have hi' := List.mem_range.mp hi
+    rw [range_getD_lt n i hi', validCounts1d_cell n s i hi', Val.sum_single_fin]
+    rfl
+  simp only [NDesign.validCountsSummaryRange, ha, summarySpecRange, hcells]
+
+/-- numeric measure over one categorical variable (no array dimension): a single number, the
+    respondents with a value and a valid category -/
+theorem valid_counts_summary_range_respondents_scalar (V : Var) (hV : V.kind = .cat)
+    (hne : 0 < V.ext) (s : Survey) (a : RawArrays)
+    (ha : a.uvalid = some (validCountsScalar [V] s)) :
+    (NDesign.mk [V] none).validCountsSummaryRange a = summarySpecRange [V] none s ∧
+    summarySpecCells [V] none s = [numSpecCount [V] 1 s [0] [true] 0] := by
+  refine ⟨?_, spec_cells_scalar_cat V hV s⟩
+  have hcells : sumAxes ((NDesign.mk [V] none).view (validCountsScalar [V] s))
+      (NDesign.mk [V] none).summaryMask = (summarySpecCells [V] none s).map Val.fin := by
+    rw [summary_cells_scalar_cat V hV, spec_cells_scalar_cat V hV]
+    have h := raw_colBases V (numVar 1) (Or.inl hV) (numVar_CM 1) s 0 0 hne
+      (by rw [numVar_ext]; exact Nat.one_pos)
+    rw [numVar_msub 1 0 Nat.one_pos] at h
+    simp only [validCountsScalar, List.map_cons, List.map_nil]
+    congr 1
+  simp only [NDesign.validCountsSummaryRange, ha, summarySpecRange, hcells]
+
+/-- With a multiple-response dimension the code (pinned by the test-suite) does NOT give the
+    respondent-level range: the apparent-dimension positions are used as axes of the all-dimension
+    array, so the selection axis is never summed.  One MR item, three respondents with a value
+    (two selected it, one did not): every one of them is valid on the item → respondent level
+    [3, 3]; the code reports [1, 2]. -/
+theorem valid_counts_summary_range_mr_counterexample :
+    let M : Var := ⟨.arr, 1, [false, false, true], true⟩
+    let s : Survey := [⟨1, [[0], [0]]⟩, ⟨1, [[0], [0]]⟩, ⟨1, [[1], [0]]⟩]
+    let a : RawArrays := ⟨none, none, some (validCountsScalar [M] s), none, none, none, none, none⟩
+    (NDesign.mk [M] none).validCountsSummaryRange a = some (.fin 1, .fin 2) ∧
+    summarySpecRange [M] none s = some (.fin 3, .fin 3) := by decide +kernel
+
 /-! ### non-vacuity and worked instances (tests, not the claims) -/
 
 example : (numVar 3).CM ∧ (1 : Nat) < (numVar 3).ext := ⟨numVar_CM 3, by decide⟩
@@ -144,5 +214,15 @@ example :
     let m := (NDesign.mk [C] (some 2)).sliceCounts (validCountsOf [C] 2 s) 0
     m.counts 0 1 = .fin 2 ∧ m.rowBases 0 1 = .fin (5/2) ∧ m.columnBases 0 1 = .fin 2 ∧
       m.counts 1 1 = .fin 3 := by decide +kernel
+
+-- same survey: summary range over the two items = [5/2, 7/2] (respondent 4 answered a missing
+-- category and is not counted), model and respondent-level spec agree
+example :
+    let C : Var := ⟨.cat, 3, [false, true, false], false⟩
+    let s : Survey := [⟨2, [[2], [0, 1]]⟩, ⟨1/2, [[0], [0, 0]]⟩, ⟨3, [[2], [1, 0]]⟩, ⟨5, [[1], [0, 0]]⟩]
+    let a : RawArrays := ⟨none, none, some (validCountsOf [C] 2 s), none, none, none, none, none⟩
+    (NDesign.mk [C] (some 2)).validCountsSummaryRange a = some (.fin (5/2), .fin (7/2)) ∧
+    summarySpecRange [C] (some 2) s = some (.fin (5/2), .fin (7/2)) ∧ 0 < C.ext := by
+  decide +kernel
 
 end CrCube.C02
